@@ -46,7 +46,7 @@ def default_params():
         welcome_error=None, welcome_motd=None,
         inject_error=None,          # side to which a server `error` may be injected
         refuse=[0, 0],              # first N connection attempts refused
-        gets="early",               # deferred API: when get_*() are requested: early | late | tape
+        gets="early",               # deferred API: when get_*() are requested: early | late | tape | after (closed)
         third=None,                 # None | "before" | "after": a raw third client claims the nameplate
         hs_fail=[0, 0],             # budget of reconnections whose WebSocket negotiation fails
         extra_msg_gets=0,           # deferred API: additional concurrently outstanding get_message() chains
@@ -593,7 +593,7 @@ def _run(P, rec, W, tape, on_step, setup, at_stable, adversary=None, on_idle=Non
                 on_step(rec)
     flush()
     flush()
-    if mode == "deferred":
+    if mode == "deferred" and P["gets"] != "after":
         for i in range(2):
             for g in list(gets_pending[i]):
                 gets_pending[i].remove(g)
